@@ -29,7 +29,9 @@ func (n keyValuePair) String() string {
 }
 
 func (n keyValuePair) Set(value string) error {
-	nsMap := strings.Split(value, "=")
+	// only the first '=' separates the name from the value: values such as
+	// "a=b" or "http://example.com/?q=1" contain the character themselves
+	nsMap := strings.SplitN(value, "=", 2)
 
 	if len(nsMap) != 2 {
 		return fmt.Errorf("invalid namespace mapping: %s", value)
